@@ -704,3 +704,144 @@ func c09r9(c *Ctx, r *Report) {
 	}
 	r.floor("clamps stored into Terminal.cy", n, 2)
 }
+
+type natLoop struct {
+	hdr  *ssa.BasicBlock
+	body map[*ssa.BasicBlock]bool
+}
+
+// natLoops returns the natural loops of fn: header h with a back edge p->h (h dominates p); the body is
+// the set of blocks that reach p without passing h.
+func natLoops(fn *ssa.Function) []natLoop {
+	var loops []natLoop
+	for _, h := range fn.Blocks {
+		body := map[*ssa.BasicBlock]bool{}
+		for _, p := range h.Preds {
+			if !h.Dominates(p) {
+				continue
+			}
+			work := []*ssa.BasicBlock{p}
+			body[h] = true
+			for len(work) > 0 {
+				x := work[len(work)-1]
+				work = work[:len(work)-1]
+				if body[x] {
+					continue
+				}
+				body[x] = true
+				work = append(work, x.Preds...)
+			}
+		}
+		if len(body) > 0 {
+			loops = append(loops, natLoop{h, body})
+		}
+	}
+	return loops
+}
+
+// c17r13: option parsers that loop over the tokens of an argument produce an error per token. An error
+// produced in one iteration must be examined (tested against nil, or returned) before the next iteration can
+// replace it; carrying it in a variable that the next token simply overwrites forgets it (D27:
+// parseLabelPosition assigned `opts.column, err = atoi(token)` for every token and returned the last err, so
+// --border-label-pos=foo:3 was accepted).
+func c17r13(c *Ctx, r *Report) {
+	l := c.L
+	r.rule("C17-R13", "A (error discipline across loop iterations)", "P1",
+		"in the option-parsing functions (package fzf, options.go), an error value produced by a call inside a loop is either not carried into the next iteration, or every path from the call to the loop header passes a test of that error (or of a variable holding it) or a return",
+		"an invalid token followed by a valid one is accepted silently: the argument is neither accepted as documented nor rejected")
+	n, carriedN := 0, 0
+	for _, fn := range l.AllFuncs() {
+		if fn.Blocks == nil || fn.Pkg != l.pkg("fzf") {
+			continue
+		}
+		if !strings.HasSuffix(l.Fset.Position(fn.Pos()).Filename, "options.go") {
+			continue
+		}
+		loops := natLoops(fn)
+		if len(loops) == 0 {
+			continue
+		}
+		k := 0
+		eachInstr(fn, func(in ssa.Instruction) {
+			var e ssa.Value
+			at := in.Pos()
+			switch x := in.(type) {
+			case *ssa.Extract:
+				if cl, ok := x.Tuple.(*ssa.Call); ok && isErrorType(x.Type()) {
+					e = x
+					at = cl.Pos()
+				}
+			case *ssa.Call:
+				if isErrorType(x.Type()) {
+					e = x
+				}
+			}
+			if e == nil {
+				return
+			}
+			// innermost loop containing the definition
+			var lp *natLoop
+			for i := range loops {
+				if loops[i].body[in.Block()] && (lp == nil || len(loops[i].body) < len(lp.body)) {
+					lp = &loops[i]
+				}
+			}
+			if lp == nil {
+				return
+			}
+			n++
+			k++
+			// the web of values that hold e: e and the phis it flows into
+			web := map[ssa.Value]bool{}
+			var grow func(v ssa.Value)
+			grow = func(v ssa.Value) {
+				if web[v] {
+					return
+				}
+				web[v] = true
+				if v.Referrers() == nil {
+					return
+				}
+				for _, ref := range *v.Referrers() {
+					if p, ok := ref.(*ssa.Phi); ok {
+						grow(p)
+					}
+				}
+			}
+			grow(e)
+			carried := false
+			for v := range web {
+				if p, ok := v.(*ssa.Phi); ok && p.Block() == lp.hdr {
+					carried = true
+				}
+			}
+			key := fmt.Sprintf("%s:error of call #%d in a loop", relName(fn), k)
+			if !carried {
+				r.ok(key, at, fn, "not carried into the next iteration")
+				return
+			}
+			carriedN++
+			tests := func(i2 ssa.Instruction) bool {
+				switch y := i2.(type) {
+				case *ssa.Return:
+					return true
+				case *ssa.If:
+					for w := range backwardSlice(y.Cond, nil, nil) {
+						if web[w] {
+							return true
+						}
+					}
+				}
+				return false
+			}
+			isHdr := func(i2 ssa.Instruction) bool {
+				return i2.Block() == lp.hdr && i2 == lp.hdr.Instrs[0]
+			}
+			esc := pathAvoiding(in, isHdr, tests, func(from, to *ssa.BasicBlock) bool { return lp.body[to] })
+			r.check(esc == nil, key, at, fn, "carried into the next iteration only after it was tested",
+				"the error is carried to the next iteration of the loop without having been tested: the next token's result overwrites it")
+		})
+	}
+	r.floor("error values produced inside loops of option parsers", n, 100)
+	r.info("carried", token.NoPos, nil, fmt.Sprintf("%d of them are carried across iterations", carriedN))
+}
